@@ -195,6 +195,8 @@ class Link(object):
             if dev.stalled and st and st.get('kind') == 'trickle' and self.trickle_next is None:
                 self.trickle_next = now
         raw = self.cur.raw
+        if self.trickle_next is None and dev.stalled and dev.stall.get('kind') == 'trickle' and dev.stall.get('mid_packet'):
+            self.trickle_next = now
         if self.trickle_next is not None:
             if now < self.trickle_next:
                 return None
@@ -257,9 +259,20 @@ class Link(object):
 
     def next_time(self):
         now = self.clock.now
-        if self.cur is not None and self.trickle_next is not None:
-            return max(now, self.trickle_next)
+        if self.trickle_next is not None:
+            # under a trickle the next byte (of the packet in progress or of the next packet) is not due before trickle_next
+            if self.cur is not None:
+                return max(now, self.trickle_next)
+            t = self.device.next_event_time(now)
+            return None if t is None else max(t, self.trickle_next)
         return self.device.next_event_time(now)
+
+    def readable_now(self):
+        """Would a read return bytes right now? (select / pump readiness)"""
+        now = self.clock.now
+        if self.trickle_next is not None and now < self.trickle_next:
+            return False
+        return self.cur is not None or self.device.has_ready(now)
 
     # -- host -> device ------------------------------------------------------------------
     def capacity(self, n):
@@ -311,9 +324,9 @@ class Link(object):
         deadline = None
         if timeout is not None:
             deadline = self.clock.now + max(0.0, timeout)
-        if self.cur is None:
-            self.device._check_stall(self.clock.now)      # a stall begins at a packet boundary
-        if self.cur is None and self.device.stalled and self.device.stall.get('kind') == 'eof':
+        if self.cur is None or (self.device.stall or {}).get('mid_packet'):
+            self.device._check_stall(self.clock.now)      # a stall begins at a packet boundary (or, on request, inside a packet)
+        if (self.cur is None or (self.device.stall or {}).get('mid_packet')) and self.device.stalled and self.device.stall.get('kind') == 'eof':
             self.clock.advance(self.idle_cost)
             self._rec(idx, actor, 'r', n, timeout, 0)
             return b''
@@ -322,6 +335,12 @@ class Link(object):
             if data is not None:
                 self._rec(idx, actor, 'r', n, timeout, len(data))
                 return data
+            if self.cfg.get('idle_returns_empty'):
+                # a backend that polls: nothing there right now -> an empty result after a short wait
+                self.clock.advance(min(self.idle_cost, timeout) if timeout and timeout > 0 else self.idle_cost)
+                self.empty_reads += 1
+                self._rec(idx, actor, 'r', n, timeout, 0)
+                return b''
             t = self.next_time()
             if t is not None and t <= self.clock.now:
                 t = self.clock.now + 1e-7
@@ -470,9 +489,9 @@ class AsyncOps(object):
         deadline = None
         if timeout is not None:
             deadline = clock.now + max(0.0, timeout)
-        if link.cur is None:
+        if link.cur is None or (link.device.stall or {}).get('mid_packet'):
             link.device._check_stall(clock.now)
-        if link.cur is None and link.device.stalled and link.device.stall.get('kind') == 'eof':
+        if (link.cur is None or (link.device.stall or {}).get('mid_packet')) and link.device.stalled and link.device.stall.get('kind') == 'eof':
             clock.advance(link.idle_cost)
             link._rec(idx, actor, 'r', n, timeout, 0)
             return b''
@@ -481,6 +500,11 @@ class AsyncOps(object):
             if data is not None:
                 link._rec(idx, actor, 'r', n, timeout, len(data))
                 return data
+            if link.cfg.get('idle_returns_empty'):
+                clock.advance(min(link.idle_cost, timeout) if timeout and timeout > 0 else link.idle_cost)
+                link.empty_reads += 1
+                link._rec(idx, actor, 'r', n, timeout, 0)
+                return b''
             t = link.next_time()
             if t is not None and t <= clock.now:
                 t = clock.now + 1e-7
